@@ -200,10 +200,11 @@ func checkDefs() map[string]*CheckDef {
 			Runs: func(tier string) []RunSpec {
 				t := ExecOpts{Termination: true, MaxSteps: 1500000}
 				rs := []RunSpec{
-					{Name: "structured", Pkg: prc, Entry: "VerifC16Structured", Params: map[string]int{"L": 1, "D": 2, "V": tierPick(tier, 2, 3)}, MustCover: []string{"configured value used", "default used", "absent without default", "default containing a colon"}, Opts: t},
+					{Name: "structured", Pkg: prc, Entry: "VerifC16Structured", Params: map[string]int{"L": 1, "D": 2, "V": tierPick(tier, 2, 3)}, MustCover: []string{"configured value used", "default used", "absent without default", "default containing a colon", "configured empty string"}, Opts: t},
 					{Name: "nested", Pkg: prc, Entry: "VerifC16Nested", MustCover: []string{"nested key present", "nested key absent"}, Opts: t},
 					{Name: "cyclic", Pkg: prc, Entry: "VerifC16Cyclic", Params: map[string]int{"TAGS": tierPick(tier, 2, 3)}, MustCover: []string{"circular reference reported as an error", "resolution terminates", "acyclic references (chains and diamonds)"}, Opts: t},
 					rh("placeholder-in-wire-tag", "VerifC07", map[string]int{"K": 1, "PORDER": 0}, "name given through a placeholder"),
+					{Name: "empty-key-real-binder", Pkg: prc, Entry: "VerifC16EmptyKey", MustCover: []string{"placeholder with an empty key"}},
 					{Name: "total", Pkg: prc, Entry: "VerifC16Total", Params: map[string]int{"N": 5, "M": 1}, MustCover: []string{"resolution terminates"}, Opts: t},
 				}
 				if tier == "thorough" {
